@@ -60,7 +60,7 @@ def angle_to_so3(alpha:float|np.ndarray, beta:float|np.ndarray, gamma:float|np.n
 
 def _so3_to_angle_hf0(x00, x10, x02, x12, x20, x21, x22, zero_eps):
     x00, x10, x02, x12, x20, x21, x22 = [x.real for x in (x00, x10, x02, x12, x20, x21, x22)] #drop imag part
-    beta = np.arccos(x22) #(0,pi)
+    beta = np.arccos(np.clip(x22, -1, 1)) #(0,pi), clip for rounding above one
     alpha = np.zeros_like(beta)
     gamma = np.zeros_like(beta)
     ind0 = beta<zero_eps
